@@ -176,6 +176,7 @@ func (g *vfGen) genDets() {
 		// index 0 and must precede the namespace; both are searched in the first 512 bytes after white space;
 		// shebang / markup / case-insensitive prefixes sit at the very start, after white space or a BOM)
 		if k := fx.Detectors[name]; k == "xml" || k == "shebang" || k == "ciPrefix" || k == "markup" {
+			fixed := len(seeds) // the literal, case and directed seeds above are never sampled away
 			var lits [][]byte
 			for _, sh := range fx.Signatures[name] {
 				b, _ := hex.DecodeString(sh)
@@ -198,9 +199,9 @@ func (g *vfGen) genDets() {
 				}
 			}
 			// quick tier: a seeded sample of the placements (every one of them in the thorough tier)
-			if !g.thorough && len(seeds) > 60 {
-				g.rng.Shuffle(len(seeds), func(a, b int) { seeds[a], seeds[b] = seeds[b], seeds[a] })
-				seeds = seeds[:60]
+			if pl := seeds[fixed:]; !g.thorough && len(pl) > 40 {
+				g.rng.Shuffle(len(pl), func(a, b int) { pl[a], pl[b] = pl[b], pl[a] })
+				seeds = seeds[:fixed+40]
 			}
 		}
 		// compound files carrying each 16-byte literal of the check as the root CLSID (v3 and v4 sectors)
